@@ -217,6 +217,8 @@ pub struct Runner {
     next_ev: u32,
     fate: HashMap<u32, Fate>,
     n_dials: usize,
+    /// connections reported established and not yet reported closed
+    est: std::collections::HashSet<usize>,
 }
 
 pub const N_PEERS: usize = 4;
@@ -250,6 +252,7 @@ impl Runner {
             next_ev: 0,
             fate: HashMap::new(),
             n_dials: 0,
+            est: Default::default(),
         }
     }
 
@@ -284,9 +287,15 @@ impl Runner {
                 match ev {
                     SwarmEvent::Behaviour(_) => "gen".into(),
                     SwarmEvent::ConnectionEstablished { peer_id, connection_id, .. } => {
-                        format!("est:{}:{}", w.conn(connection_id), w.peer(&peer_id))
+                        let c = w.conn(connection_id);
+                        self.est.insert(c);
+                        format!("est:{}:{}", c, w.peer(&peer_id))
                     }
-                    SwarmEvent::ConnectionClosed { connection_id, .. } => format!("closed:{}", w.conn(connection_id)),
+                    SwarmEvent::ConnectionClosed { connection_id, .. } => {
+                        let c = w.conn(connection_id);
+                        self.est.remove(&c);
+                        format!("closed:{c}")
+                    }
                     SwarmEvent::OutgoingConnectionError { connection_id, .. } => format!("fail:{}", w.conn(connection_id)),
                     _ => "other".into(),
                 }
@@ -360,8 +369,11 @@ impl Runner {
                 (format!("disconnect {p}"), format!("res={}", if r.is_ok() { "ok" } else { "err" }))
             }
             Op::RClose(c) => {
-                if let Some(m) = self.mux_of_conn.get(c) {
-                    Sim::<NB>::fail_muxer(m);
+                // (a remote close of a connection that is not established yet is not modelled)
+                if self.est.contains(c) {
+                    if let Some(m) = self.mux_of_conn.get(c) {
+                        Sim::<NB>::fail_muxer(m);
+                    }
                 }
                 (format!("rclose {c}"), "res=-".into())
             }
